@@ -37,6 +37,14 @@ var selBuilders = []selBuilder{
 	{"in-array", "find", selFind(func(g *Gen, N string, l func() *Node) *Node {
 		return ObjN(N, ObjN(g.pick("$in", "$nin", "$all"), ArrN(l(), l())), "plain1", ObjN("$in", ArrN(l())))
 	})},
+	{"name-inside-in-members", "find", selFind(func(g *Gen, N string, l func() *Node) *Node {
+		// the list hangs under a field that is not selected; its members are sub-documents that HAVE the field
+		return ObjN("plainparent", ObjN(g.pick("$in", "$nin"), ArrN(ObjN(N, l(), "plain1", l()), ObjN("plain2", l(), N, ObjN("$gt", l())))),
+			"plainlist", ObjN("$elemMatch", ObjN("sub", ObjN("$in", ArrN(ObjN(N, l()), ObjN("plain3", l()))))))
+	})},
+	{"upd-pull-in-members", "update", selUpd(func(g *Gen, N string, l func() *Node) *Node {
+		return ObjN("$pull", ObjN("plainparent", ObjN("$in", ArrN(ObjN(N, l(), "plain1", l())))), "$addToSet", ObjN("plainlist", ObjN("$each", ArrN(ObjN(N, l()), ObjN("plain2", l())))))
+	})},
 	{"elemMatch", "find", selFind(func(g *Gen, N string, l func() *Node) *Node {
 		return ObjN(N, ObjN("$elemMatch", ObjN("sub", l(), "n", ObjN("$gt", l()))))
 	})},
